@@ -918,3 +918,30 @@ Lemma int_zero_tile_example :
     write_image Npy st root (mkImg 2 2 U8 (fun _ _ => PxI 0)) None = Some st' /\
     st' root Npy <> None.
 Proof. intros st. eexists. split; [reflexivity|]. unfold st_set. cbn. discriminate. Qed.
+
+(* the repaired integer rule (finding C02-1) coincides with the coded one on
+   non-negative data, and never loses a non-zero value to a zero *)
+Lemma upd_px_fixed_agrees m s o :
+  nonneg_px s -> nonneg_px o -> upd_px_fixed m s o = upd_px m s o.
+Proof.
+  intros Hs Ho. destruct m; cbn [upd_px_fixed upd_px]; try reflexivity;
+    destruct s; try reflexivity; destruct o; try reflexivity; cbn [nonneg_px] in *;
+    destruct (v0 =? 0) eqn:E1; cbn [orb];
+    try (f_equal; lia);
+    destruct (v =? 0) eqn:E2; cbn [negb andb]; try (f_equal; lia);
+    destruct (v0 <? v) eqn:E3; f_equal; lia.
+Qed.
+
+Lemma upd_px_fixed_zero m a b :
+  is_int_mode m = true ->
+  upd_px_fixed m (PxI a) (PxI 0) = PxI a /\ upd_px_fixed m (PxI 0) (PxI b) = PxI b.
+Proof.
+  intros Hm. destruct m; try discriminate; cbn [upd_px_fixed]; split; try reflexivity;
+    destruct (b =? 0) eqn:E; cbn [orb negb andb Z.eqb]; try reflexivity; f_equal; lia.
+Qed.
+
+Lemma update_fixed_agrees_lemma :
+  (forall m s o, nonneg_px s -> nonneg_px o -> upd_px_fixed m s o = upd_px m s o) /\
+  (forall m a b, is_int_mode m = true ->
+                 upd_px_fixed m (PxI a) (PxI 0) = PxI a /\ upd_px_fixed m (PxI 0) (PxI b) = PxI b).
+Proof. split; [exact upd_px_fixed_agrees | exact upd_px_fixed_zero]. Qed.
